@@ -63,6 +63,7 @@ type FuncCtx struct {
 	globals        map[*types.Var]Val
 	pcParts        map[string][]string
 	namedFuns      map[string]bool
+	pureGround     bool
 	pcAnd          map[string][2]string // pc name -> (narrowed pc, narrowing conditions)
 	nclosure       int
 	heapInit       map[string]Term
